@@ -29,6 +29,8 @@ def is_hash_ordered(t) -> bool:
 
 def run(chk: Check) -> None:
     ix = get_index()
+    run_only_once_slot(chk, ix)
+    run_plugin_identity(chk, ix)
     R = Resolver(ix)
     r1 = chk.rule("R10.1", "every iteration over a set/frozenset is either consumed order-insensitively (recognised structurally) or tabled with a reason; an untabled order-sensitive use is a violation", floor=80)
     n_sites = 0
@@ -405,7 +407,8 @@ def is_container(v: ast.expr) -> bool:
 def reset_reach(ix, R):
     """Handles (qualified names of globals) reset by functions called on the path build.build -> dispatch."""
     out = set()
-    roots = ["mypy.build.build", "mypy.build.build_inner"]
+    # the entry path of a build: listing the sources (main.process_options, the daemon) and build.build
+    roots = ["mypy.build.build", "mypy.build.build_inner", "mypy.find_sources.create_source_list"]
     seen = set()
     todo = list(roots)
     depth = {r: 0 for r in roots}
@@ -476,3 +479,39 @@ def assigned_globals(ix, g: FuncInfo) -> set[str]:
                     if rr and rr[0] == "const":
                         out.add(f"{rr[1].name}.{rr[2]}")
     return out
+
+
+def run_only_once_slot(chk: Check, ix) -> None:
+    """R10.4: a once-per-build slot is claimed only by a message that is recorded."""
+    from ..cfg import CFG, call_name
+    r4 = chk.rule("R10.4", "Errors.add_error_info claims a slot in only_once_messages (the build-wide set that makes a note appear once) only on a path that goes on to record the message (_add_error_info / note_for_info): every early return that drops the message (ErrorWatcher filters, `# type: ignore`, ignored files) comes before the slot is claimed; a suppressed occurrence that claims the slot removes the note from the module where it is visible, and which occurrence is first depends on the order of the file arguments", floor=2)
+    f = ix.func("mypy.errors.Errors.add_error_info")
+    g = CFG(f.node)
+    adds = [n for n in g.nodes if any(isinstance(c.func, ast.Attribute) and c.func.attr == "add" and isinstance(c.func.value, ast.Attribute) and c.func.value.attr == "only_once_messages" for c in n.calls())]
+    recs = [n for n in g.nodes if any(call_name(c) in ("_add_error_info", "note_for_info") for c in n.calls())]
+    if not adds or not recs:
+        raise AnalysisError("add_error_info: only_once_messages.add / recording call not found")
+    for a in adds:
+        key = f"the slot claimed at line {a.lineno} is followed by the recording of the message on every path"
+        later = [r for r in recs if r in g.reachable([a], labels_excluded=("exc",)) and r is not a]
+        if later and g.must_pass(a, [g.exit], later, labels_excluded=("exc",)):
+            r4.ok(key, f.loc(a.stmt))
+        else:
+            w = g.witness(a, [g.exit], avoiding=later, labels_excluded=("exc",)) if hasattr(g, "witness") else None
+            r4.violation(key, f.loc(a.stmt), "after `only_once_messages.add(...)` the function can still return without recording the message (a later suppression test drops it): the slot is taken by an occurrence nobody sees" + (f"; path through line {[x.lineno for x in w][:6]}" if w else ""))
+
+
+def run_plugin_identity(chk: Check, ix) -> None:
+    """R10.5: a plugin given by file path is the module from that file, whatever earlier builds imported."""
+    r5 = chk.rule("R10.5", "load_plugins_from_config imports a plugin given as a .py path by its bare module name (importlib.import_module after putting the directory first on sys.path); sys.modules is process-global, so before that import a module of the same name that was loaded from another file is discarded (or the plugin is loaded from its path directly): otherwise a second build in the same process runs the first build's plugin", floor=1)
+    f = ix.func("mypy.build.load_plugins_from_config")
+    imps = [c for c in ast.walk(f.node) if isinstance(c, ast.Call) and norm(c.func) in ("importlib.import_module", "import_module")]
+    if not imps:
+        r5.ok("plugins are no longer imported by bare module name", f.loc())
+        return
+    guards = [n for n in ast.walk(f.node) if (isinstance(n, ast.Delete) and any("sys.modules" in norm(t) for t in n.targets)) or (isinstance(n, ast.Call) and norm(n.func) in ("sys.modules.pop", "importlib.util.spec_from_file_location", "importlib.reload"))]
+    key = "a same-named module loaded from another file is not reused as the plugin"
+    if guards:
+        r5.ok(key, f.loc(guards[0]))
+    else:
+        r5.violation(key, f.loc(imps[0]), "import_module(<bare name>) returns whatever sys.modules holds under that name: a plugin file with the same name from another directory, loaded by an earlier build in this process")
